@@ -31,6 +31,8 @@ pub struct Cfg {
     pub store_bin_roles: BTreeMap<String, BTreeMap<String, String>>,
     pub forbid_panic: BTreeSet<String>,
     pub skip_files: BTreeSet<String>,
+    /// functions in whose `BinEntry::Tree` arm the old bin must be either passed on or retired, exactly once (C04)
+    pub old_bin_ledger: BTreeSet<String>,
 }
 
 pub struct FnSk {
@@ -86,6 +88,8 @@ pub struct Walker<'a> {
     pub ambiguous: Vec<String>,
     pub extra_guards: Vec<String>,
     pub fn_index: usize,
+    /// inside a Tree arm of a ledger function: the variable holding the old bin pointer
+    old_bin_var: Option<String>,
 }
 
 fn struct_guard_field(idx: &SrcIndex, owner: &str) -> bool {
@@ -205,6 +209,7 @@ impl<'a> Walker<'a> {
             ambiguous: vec![],
             extra_guards: vec![],
             fn_index,
+            old_bin_var: None,
         }
     }
 
@@ -499,6 +504,13 @@ impl<'a> Walker<'a> {
         let mut last_ty = None;
         let n = b.stmts.len();
         for (i, s) in b.stmts.iter().enumerate() {
+            if i + 1 == n {
+                if let (Some(v), syn::Stmt::Expr(syn::Expr::Path(p), None)) = (&self.old_bin_var, s) {
+                    if p.path.is_ident(v.as_str()) {
+                        out.push(Sk::Set { name: "g_reuse".into(), val: BVal::Lit(true) });
+                    }
+                }
+            }
             let t = self.stmt(s, out);
             if i + 1 == n {
                 last_ty = t;
@@ -1042,6 +1054,17 @@ impl<'a> Walker<'a> {
 
     pub fn expr(&mut self, e: &syn::Expr, out: &mut Vec<Sk>) -> Option<Var> {
         let line = e.span().start().line;
+        if let Some(v) = self.old_bin_var.clone() {
+            let first_arg_is_bin = |args: &syn::punctuated::Punctuated<syn::Expr, syn::token::Comma>| matches!(args.first(), Some(syn::Expr::Path(p)) if p.path.is_ident(v.as_str()));
+            let hit = match e {
+                syn::Expr::Call(c) => toks(&*c.func).replace(' ', "").ends_with("defer_drop_without_values") && first_arg_is_bin(&c.args),
+                syn::Expr::MethodCall(m) => m.method == "retire_shared" && first_arg_is_bin(&m.args),
+                _ => false,
+            };
+            if hit {
+                out.push(Sk::Set { name: "g_retired".into(), val: BVal::Lit(true) });
+            }
+        }
         match e {
             syn::Expr::Lit(_) => None,
             syn::Expr::Path(p) => {
@@ -1266,6 +1289,16 @@ impl<'a> Walker<'a> {
                     self.scopes.push(BTreeMap::new());
                     self.bind_pat(&a.pat, sty.as_deref(), sfg.clone());
                     let mut b = vec![];
+                    // old-bin ledger (C04): in the Tree arm of a listed function the matched bin is either passed on
+                    // (it is the value of a block) or retired, exactly once
+                    let pat_s = toks(&a.pat).replace(' ', "");
+                    let ledger_arm = self.cfg.old_bin_ledger.contains(&self.f.key) && pat_s.starts_with("BinEntry::Tree(");
+                    let saved_obv = self.old_bin_var.clone();
+                    if ledger_arm {
+                        self.old_bin_var = leftmost_ident(&m.expr);
+                        b.push(Sk::Decl { name: "g_reuse".into(), init: BVal::Lit(false) });
+                        b.push(Sk::Decl { name: "g_retired".into(), init: BVal::Lit(false) });
+                    }
                     if let Some((_, g)) = &a.guard {
                         self.expr(g, &mut b);
                     }
@@ -1277,6 +1310,11 @@ impl<'a> Walker<'a> {
                             }
                         }
                     }
+                    if ledger_arm {
+                        b.push(Sk::Raw("assert(!(g_reuse && g_retired));   // OBL:C04:old_tree_bin_passed_on_into_the_next_table_is_not_retired".into()));
+                        b.push(Sk::Raw("assert(g_reuse || g_retired);   // OBL:C04:old_tree_bin_not_passed_on_is_retired".into()));
+                    }
+                    self.old_bin_var = saved_obv;
                     self.scopes.pop();
                     let c = match &cas_var {
                         Some(r) => Cond::Var(r.clone(), toks(&a.pat).starts_with("Err")),
